@@ -7,7 +7,11 @@
 package main
 
 import (
+	"context"
+	"errors"
 	"fmt"
+	"io"
+	"net"
 	"os"
 	"os/signal"
 	"strings"
@@ -47,8 +51,33 @@ type side struct {
 	q        chan []byte // application writes, performed in order by one goroutine
 }
 
-func runRelay(c *Case, r *Run, script []relayEv, gapMode int, window int, chunk int, seed uint64) {
+// endErrors are the error values with which a side's Read (events Arst/Brst)
+// or the relay's Write towards it (Awerr/Bwerr) fails.  The property says
+// "EOF or error": which error it is, and whether it happens to be one of the
+// standard library's sentinel values, must not matter.  Kind 0 is the plain
+// connection reset wrapped in a *net.OpError.
+var endErrors = []struct {
+	name string
+	err  error
+}{
+	{"econnreset", nil},
+	{"io.ErrClosedPipe", io.ErrClosedPipe},
+	{"OpError(net.ErrClosed)", &net.OpError{Op: "read", Net: "tcp", Err: net.ErrClosed}},
+	{"wrapped(io.ErrClosedPipe)", fmt.Errorf("transport: %w", io.ErrClosedPipe)},
+	{"net.ErrClosed", net.ErrClosed},
+	{"io.ErrUnexpectedEOF", io.ErrUnexpectedEOF},
+	{"OpError(os.ErrDeadlineExceeded)", &net.OpError{Op: "read", Net: "tcp", Err: os.ErrDeadlineExceeded}},
+	{"context.Canceled", context.Canceled},
+	{"plain", errors.New("transport: frame decoding failed")},
+	{"io.ErrNoProgress", io.ErrNoProgress},
+	{"syscall.EPIPE", syscall.EPIPE},
+	{"wrapped(io.EOF)", fmt.Errorf("transport: %w", io.EOF)},
+}
+
+func runRelay(c *Case, r *Run, script []relayEv, gapMode int, window int, chunk int, seed uint64, errKind int) {
 	rng := NewRand(seed)
+	endErr := endErrors[errKind%len(endErrors)]
+	r.Count("relay_end_error_kind_"+endErr.name, 1)
 	a1, a2 := Pair(Options{}) // a1 = relay end, a2 = client application
 	b1, b2 := Pair(Options{}) // b1 = relay end, b2 = remote peer
 	A := &side{name: "a", relay: a1, app: a2, st: Stream{Key: seed ^ 0xa}, mismatch: -1, cutAt: -1}
@@ -183,7 +212,11 @@ func runRelay(c *Case, r *Run, script []relayEv, gapMode int, window int, chunk 
 			s.written += int64(tail)
 			synctest.Wait()
 			s.cutAt = s.written
-			s.app.Out().SetCut(s.cutAt, CutRST)
+			if endErr.err != nil {
+				s.app.Out().SetCutErr(s.cutAt, endErr.err)
+			} else {
+				s.app.Out().SetCut(s.cutAt, CutRST)
+			}
 			s.app.Out().Pause(false)
 			synctest.Wait() // the relay deals with this end before the next event
 			if !anyEnd {
@@ -201,7 +234,11 @@ func runRelay(c *Case, r *Run, script []relayEv, gapMode int, window int, chunk 
 			}
 			synctest.Wait()
 			s.werr = true
-			s.relay.Out().SetWriteFault(s.relay.Out().Written(), syscall.EPIPE)
+			if endErr.err != nil {
+				s.relay.Out().SetWriteFaultRaw(s.relay.Out().Written(), endErr.err)
+			} else {
+				s.relay.Out().SetWriteFault(s.relay.Out().Written(), syscall.EPIPE)
+			}
 		}
 	}
 	synctest.Wait()
@@ -213,7 +250,7 @@ func runRelay(c *Case, r *Run, script []relayEv, gapMode int, window int, chunk 
 	A, B = &aSnap, &bSnap
 	r.Count("evaluations", 1)
 	r.Count("relay_scripts", 1)
-	wit := map[string]any{"script": strings.Join(trace, " "), "gap_mode": gapMode, "window": window, "chunk": chunk}
+	wit := map[string]any{"script": strings.Join(trace, " "), "gap_mode": gapMode, "window": window, "chunk": chunk, "end_error": endErr.name}
 	sigOf := func(s string) string { return s + "/" + classify(script) }
 	for _, pr := range [][2]*side{{A, B}, {B, A}} {
 		me, other := pr[0], pr[1]
@@ -282,7 +319,7 @@ func runRelay(c *Case, r *Run, script []relayEv, gapMode int, window int, chunk 
 			r.Count("control_relay_idle_stays_open", 1)
 		}
 	}
-	r.Distinct("nontrivial", fmt.Sprintf("relay/%s/%d/%d/%d", strings.Join(trace, " "), gapMode, window, chunk))
+	r.Distinct("nontrivial", fmt.Sprintf("relay/%s/%d/%d/%d/%d", strings.Join(trace, " "), gapMode, window, chunk, errKind%len(endErrors)))
 	r.Distinct("relay_orders", strings.Join(kinds(script), " "))
 	// clean up so that the bubble can end
 	close(A.q)
@@ -655,7 +692,7 @@ func group(seq string, mask int) []string {
 func TestCheck(t *testing.T) {
 	r := Start(t, "C19")
 	defer r.Finish()
-	r.Note("rule", "relay: all scripts up to the bound over {Aw, Bw (data, sizes 1/700/70000), Aeof, Beof, Arst, Brst, Awerr, Bwerr} (a write fault is followed by traffic towards it), each with distinct or PRNG (possibly equal) virtual instants, unbounded or 4 KiB sink windows, chunkings {all,1,PRNG}; termination monitor: all histories up to the bound over {handler start, finish (only while one is active), SIGINT, SIGTERM}, each with all events at distinct instants and with adjacent events merged into the same instant (every mask in the thorough tier, PRNG masks in quick); the main goroutine does what main() does: wait(false), and after a SIGINT wait(true). Non-trivial = every script/history; distinct = (script, timing, window, chunking) / (history grouping).")
+	r.Note("rule", "relay: all scripts up to the bound over {Aw, Bw (data, sizes 1/700/70000), Aeof, Beof, Arst, Brst, Awerr, Bwerr} (a write fault is followed by traffic towards it), the error value with which a side fails rotating through 12 kinds (connection reset, io.ErrClosedPipe, net.ErrClosed bare and wrapped, deadline exceeded, context.Canceled, plain, ...) and every kind x 14 single-failure scripts, each with distinct or PRNG (possibly equal) virtual instants, unbounded or 4 KiB sink windows, chunkings {all,1,PRNG}; termination monitor: all histories up to the bound over {handler start, finish (only while one is active), SIGINT, SIGTERM}, each with all events at distinct instants and with adjacent events merged into the same instant (every mask in the thorough tier, PRNG masks in quick); the main goroutine does what main() does: wait(false), and after a SIGINT wait(true). Non-trivial = every script/history; distinct = (script, timing, window, chunking) / (history grouping).")
 
 	// relay scripts
 	maxLen := r.Pick(3, 4)
@@ -717,8 +754,13 @@ func TestCheck(t *testing.T) {
 				if r.Thorough() {
 					variants = append(variants, [3]int{0, 4096, 1}, [3]int{1, 0, 2})
 				}
-				for _, v := range variants {
+				for vi, v := range variants {
 					i, v := i, v
+					// the error value a failing side reports rotates through endErrors
+					ek := 0
+					if vi > 0 {
+						ek = 1 + (i+vi)%(len(endErrors)-1)
+					}
 					func() {
 						defer func() {
 							if e := recover(); e != nil {
@@ -729,12 +771,48 @@ func TestCheck(t *testing.T) {
 								c.Violation(sig+"/"+classify(scripts[i]), fmt.Sprintf("%v; script %v", e, scripts[i]), nil)
 							}
 						}()
-						synctest.Test(c.T, func(t *testing.T) { runRelay(c, r, scripts[i], v[0], v[1], v[2], r.Sub("relay", i, v[0], v[1], v[2])) })
+						synctest.Test(c.T, func(t *testing.T) { runRelay(c, r, scripts[i], v[0], v[1], v[2], r.Sub("relay", i, v[0], v[1], v[2]), ek) })
 					}()
 				}
 			}
 		})
 	}
+
+	// every error value x every way a single side can fail, with the other
+	// side idle and healthy, sending, or itself ending afterwards
+	var errScripts [][]relayEv
+	for _, xy := range [][2]string{{"A", "B"}, {"B", "A"}} {
+		x, y := xy[0], xy[1]
+		errScripts = append(errScripts,
+			[]relayEv{{x + "rst", 0}},
+			[]relayEv{{x + "w", 700}, {x + "rst", 0}},
+			[]relayEv{{y + "w", 70000}, {x + "rst", 0}},
+			[]relayEv{{x + "w", 1}, {y + "w", 700}, {x + "rst", 0}, {y + "eof", 0}},
+			[]relayEv{{x + "werr", 0}, {y + "w", 700}},
+			[]relayEv{{x + "w", 700}, {x + "werr", 0}, {y + "w", 70000}},
+			[]relayEv{{x + "stall", 0}, {y + "w", 70000}, {x + "rst", 0}})
+	}
+	r.Case("relay-end-errors", func(c *Case) {
+		for ek := range endErrors {
+			for si, sc := range errScripts {
+				for vi, v := range [][3]int{{0, 0, 0}, {1, 4096, 2}} {
+					ek, si, sc, v := ek, si, sc, v
+					func() {
+						defer func() {
+							if e := recover(); e != nil {
+								sig := "relay/panic"
+								if strings.HasPrefix(fmt.Sprint(e), "deadlock:") {
+									sig = "relay/goroutines-still-blocked-after-teardown"
+								}
+								c.Violation(sig+"/"+classify(sc), fmt.Sprintf("%v; script %v; end error %s", e, sc, endErrors[ek].name), nil)
+							}
+						}()
+						synctest.Test(c.T, func(t *testing.T) { runRelay(c, r, sc, v[0], v[1], v[2], r.Sub("relay-err", ek, si, vi), ek) })
+					}()
+				}
+			}
+		}
+	})
 
 	// termination monitor histories
 	// (os/signal starts its dispatch goroutine on first use; that must not
